@@ -178,6 +178,7 @@ class Engine:
         self.tensorlib = None                 # set by pyvc.tensor
         self.builtins = {}
         self.stats = {"branches": 0, "feasibility_checks": 0, "paths": 0}
+        self.attr_reads = set()
         self.sources_used = {}                # relpath -> sha256
         self.max_paths = 4096
         self.reductions = {}
@@ -1722,6 +1723,7 @@ class Engine:
                 return NativeFn("object.__init__", lambda *a, **k: None)
             raise PyRaise(AttributeError, (name,))
         if is_obj(o):
+            self.attr_reads.add((str(o), name))          # which attributes of opaque objects the code reads (frame obligations)
             ov = self.path.__dict__.get("opaque_attrs", {}).get((o.get_id(), name))
             if ov is not None:
                 return ov
